@@ -259,7 +259,11 @@ def make_base(rng, idx):
             files["pkg/edge%d.%s" % (idx, lang)] = "%s window-sized module%s\n%s\n" % ("#" if lang == "py" else "//", c03.NON_ASCII, "\n".join(body))
             head, tail_, ind = ("def holder_%d(alpha, beta):" % idx, "    return alpha", "    ") if lang == "py" else ("function holder_%d(alpha, beta) {" % idx, "  return alpha;\n}", "  ")
             files["pkg/edge_host%d.%s" % (idx, lang)] = "\n".join([head, ind + c03.stmt(lang, idx * 1000 + 700)] + [ind + b for b in body] + [ind + c03.stmt(lang, idx * 1000 + 701), tail_]) + "\n"
-        cfg = {"dry": {"enabled": True, "min_duplicate_lines": W, "min_occurrences": 2}}
+            # a module constant defined in two files (duplicate-constant detection), at the END of both
+            const = ("SHARED_LIMIT_%d = %d\n" if lang == "py" else "export const SHARED_LIMIT_%d = %d;\n") % (idx, 4000 + idx)
+            for nm in ("pkg/edge%d.%s" % (idx, lang), "pkg/edge_host%d.%s" % (idx, lang)):
+                files[nm] += "\n\n" + const if lang == "py" else const
+        cfg = {"dry": {"enabled": True, "min_duplicate_lines": W, "min_occurrences": 2, "detect_duplicate_constants": True}}
         cmds = ["dry"]
     else:
         t = triggers.random_files(rng, tag="e%d" % idx)
